@@ -130,11 +130,7 @@ impl<'a> Parser<'a> {
                     'r' => string.push(0x0d as char),
                     't' => string.push(0x09 as char),
                     'u' => {
-                        let hex: String = [self.next()?, self.next()?, self.next()?, self.next()?]
-                            .iter()
-                            .collect();
-                        let code = u16::from_str_radix(&hex, 16)
-                            .map_err(|_| self.traceback(ParseError::InvalidEscapeSequence))?;
+                        let code = self.parse_hex_escape()?;
 
                         let new_char = if let Some(new_char) = char::from_u32(code as u32) {
                             new_char
@@ -144,12 +140,7 @@ impl<'a> Parser<'a> {
                                 self.traceback(ParseError::InvalidEscapeSequence),
                             )?;
 
-                            let hex: String =
-                                [self.next()?, self.next()?, self.next()?, self.next()?]
-                                    .iter()
-                                    .collect();
-                            let code_2 = u16::from_str_radix(&hex, 16)
-                                .map_err(|_| self.traceback(ParseError::InvalidEscapeSequence))?;
+                            let code_2 = self.parse_hex_escape()?;
 
                             char::decode_utf16([code, code_2])
                                 .next()
@@ -176,6 +167,21 @@ impl<'a> Parser<'a> {
         }
 
         Ok(Value::String(string))
+    }
+
+    /// Parse the four hexadecimal digits of a `\uXXXX` escape sequence.
+    fn parse_hex_escape(&mut self) -> Result<u16, TracebackError> {
+        let hex: String = [self.next()?, self.next()?, self.next()?, self.next()?]
+            .iter()
+            .collect();
+
+        // `from_str_radix` on its own would also accept a sign, e.g. `\u+123`
+        quiet_assert(
+            hex.chars().all(|c| c.is_ascii_hexdigit()),
+            self.traceback(ParseError::InvalidEscapeSequence),
+        )?;
+
+        u16::from_str_radix(&hex, 16).map_err(|_| self.traceback(ParseError::InvalidEscapeSequence))
     }
 
     /// Attempt to parse an array from the character stream.
